@@ -187,7 +187,7 @@ def call_builder(env, p, module, variables, cons):
     """hand the problem to module.build_computation_graph in one of the ways the API allows
     -> (via, graph or Raised, frame) ; frame: the _Frame snapshot of everything handed over, taken before the call"""
     from pydcop.dcop.dcop import DCOP
-    vias = p.get("vias", ["dcop", "lists"])
+    vias = p.get("vias", ["dcop", "lists", "dcop-grown"])
     via = env.choice("via", vias) if len(vias) > 1 else vias[0]
     if via == "lists":
         # the caller keeps the two lists it hands over (frame: they are his, the builder only reads them)
@@ -205,6 +205,23 @@ def call_builder(env, p, module, variables, cons):
         for c in cons:
             dcop.add_constraint(c)
         for v in variables:
+            if v.name not in dcop.variables:
+                dcop.add_variable(v)
+    elif via == "dcop-grown":
+        # a DCOP whose graph was already built once and that has grown since through its public API (more constraints,
+        # more variables): the graph under contract is the one of the DCOP as it is now
+        cl = list(cons)
+        half = len(cl) // 2
+        for c in cl[:half]:
+            dcop.add_constraint(c)
+        vl = list(variables)
+        for v in vl[:1]:
+            if v.name not in dcop.variables:
+                dcop.add_variable(v)
+        env.call(module.build_computation_graph, dcop)      # not judged
+        for c in cl[half:]:
+            dcop.add_constraint(c)
+        for v in vl:
             if v.name not in dcop.variables:
                 dcop.add_variable(v)
     else:
@@ -785,43 +802,43 @@ def shapes_c16(tier):
     s = [
         # every hypergraph with unary/binary/ternary scopes on <= 3 variables, every constraint/variable kind,
         # every way of handing the problem over, duplicate scopes, both creation orders
-        dict(n=1, enum="subsets", max_arity=1, vias=["dcop", "lists", "dcop-implicit"], dup=True, **_KINDS),
-        dict(n=2, enum="subsets", max_arity=2, vias=["dcop", "lists", "dcop-implicit"], dup=True, **_KINDS),
-        dict(n=3, enum="subsets", max_arity=3, vias=["dcop", "lists", "dcop-implicit"], dup=True, vkinds=["mixed"]),
+        dict(n=1, enum="subsets", max_arity=1, vias=["dcop", "lists", "dcop-implicit", "dcop-grown"], dup=True, **_KINDS),
+        dict(n=2, enum="subsets", max_arity=2, vias=["dcop", "lists", "dcop-implicit", "dcop-grown"], dup=True, **_KINDS),
+        dict(n=3, enum="subsets", max_arity=3, vias=["dcop", "lists", "dcop-implicit", "dcop-grown"], dup=True, vkinds=["mixed"]),
         # 4 variables: every unary/binary hypergraph, every set of <= 3 scopes of arity <= 3, <= 2 scopes of arity <= 4
         # (all 16384 hypergraphs with arity <= 3 are in the thorough tier)
         dict(n=4, enum="subsets", max_arity=2, vias=["dcop"]),
         dict(n=4, enum="upto", k=3, max_arity=3, vias=["dcop"], var_orders="both"),
         dict(n=4, enum="upto", k=2, max_arity=4, vias=["lists", "dcop-implicit"], dup=True, vkinds=["mixed"], ckinds=["func"]),
         # named n-ary / disconnected families and seeded random hypergraphs up to 8 variables
-        dict(n=9, enum="family", family="nary-overlap", vias=["dcop", "lists"]),
-        dict(n=8, enum="family", family="nary-disconnected", vias=["dcop", "lists", "dcop-implicit"], var_orders="both"),
-        dict(n=6, enum="random", samples=80, seed=1, max_arity=4, vias=["dcop", "lists"]),
-        dict(n=8, enum="random", samples=80, seed=2, max_arity=5, vias=["dcop", "lists"], ckinds=["func"]),
+        dict(n=9, enum="family", family="nary-overlap", vias=["dcop", "lists", "dcop-grown"]),
+        dict(n=8, enum="family", family="nary-disconnected", vias=["dcop", "lists", "dcop-implicit", "dcop-grown"], var_orders="both"),
+        dict(n=6, enum="random", samples=80, seed=1, max_arity=4, vias=["dcop", "lists", "dcop-grown"]),
+        dict(n=8, enum="random", samples=80, seed=2, max_arity=5, vias=["dcop", "lists", "dcop-grown"], ckinds=["func"]),
     ]
     if tier == "thorough":
         s += [
-            dict(n=1, enum="subsets", max_arity=1, vias=["dcop", "lists", "dcop-implicit"], var_orders="both", dup=True, **_KINDS),
-            dict(n=2, enum="subsets", max_arity=2, vias=["dcop", "lists", "dcop-implicit"], var_orders="both", dup=True, **_KINDS),
-            dict(n=3, enum="subsets", max_arity=3, vias=["dcop", "lists", "dcop-implicit"], dup=True,
+            dict(n=1, enum="subsets", max_arity=1, vias=["dcop", "lists", "dcop-implicit", "dcop-grown"], var_orders="both", dup=True, **_KINDS),
+            dict(n=2, enum="subsets", max_arity=2, vias=["dcop", "lists", "dcop-implicit", "dcop-grown"], var_orders="both", dup=True, **_KINDS),
+            dict(n=3, enum="subsets", max_arity=3, vias=["dcop", "lists", "dcop-implicit", "dcop-grown"], dup=True,
                  vkinds=["mixed"], ckinds=["matrix", "func"]),
             dict(n=4, enum="subsets", max_arity=2, vias=["dcop"]),
             dict(n=4, enum="upto", k=4, max_arity=3, vias=["dcop"], var_orders="both"),
             dict(n=4, enum="upto", k=3, max_arity=4, vias=["lists", "dcop-implicit"], dup=True,
                  vkinds=["mixed"], ckinds=["func"]),
-            dict(n=9, enum="family", family="nary-overlap", vias=["dcop", "lists"]),
-            dict(n=8, enum="family", family="nary-disconnected", vias=["dcop", "lists", "dcop-implicit"], var_orders="both"),
-            dict(n=6, enum="random", samples=150, seed=1, max_arity=4, vias=["dcop", "lists"]),
-            dict(n=8, enum="random", samples=150, seed=2, max_arity=5, vias=["dcop", "lists"], ckinds=["func"]),
+            dict(n=9, enum="family", family="nary-overlap", vias=["dcop", "lists", "dcop-grown"]),
+            dict(n=8, enum="family", family="nary-disconnected", vias=["dcop", "lists", "dcop-implicit", "dcop-grown"], var_orders="both"),
+            dict(n=6, enum="random", samples=150, seed=1, max_arity=4, vias=["dcop", "lists", "dcop-grown"]),
+            dict(n=8, enum="random", samples=150, seed=2, max_arity=5, vias=["dcop", "lists", "dcop-grown"], ckinds=["func"]),
             dict(n=4, enum="subsets", max_arity=3, vias=["dcop"], vkinds=["plain"], ckinds=["matrix"]),   # all 16384
             dict(n=4, enum="subsets", max_arity=3, vias=["lists"], vkinds=["mixed"], ckinds=["func"]),
             dict(n=4, enum="upto", k=3, max_arity=4, vias=["lists", "dcop-implicit"], dup=True, reverse_constraints=True, var_orders="both"),
             dict(n=5, enum="subsets", max_arity=2, vias=["dcop"]),                      # 2^15 graphs with unary+binary scopes
-            dict(n=5, enum="upto", k=4, max_arity=3, vias=["dcop", "lists"]),            # 15276 scope sets x 2
+            dict(n=5, enum="upto", k=4, max_arity=3, vias=["dcop", "lists", "dcop-grown"]),            # 15276 scope sets x 2
             dict(n=6, enum="upto", k=3, max_arity=3, vias=["dcop"]),                     # 11522 scope sets
             dict(n=6, enum="upto", k=2, max_arity=4, vias=["lists"], dup=True),
-            dict(n=7, enum="random", samples=3000, seed=3, max_arity=5, vias=["dcop", "lists"]),
-            dict(n=8, enum="random", samples=3000, seed=4, max_arity=6, vias=["dcop", "lists", "dcop-implicit"]),
+            dict(n=7, enum="random", samples=3000, seed=3, max_arity=5, vias=["dcop", "lists", "dcop-grown"]),
+            dict(n=8, enum="random", samples=3000, seed=4, max_arity=6, vias=["dcop", "lists", "dcop-implicit", "dcop-grown"]),
         ]
     return s
 
@@ -829,22 +846,22 @@ def shapes_c16(tier):
 def shapes_ordered(tier):
     s = [
         # the chain depends on names and creation order: every creation order of <= 5 variables
-        dict(n=1, enum="subsets", max_arity=1, vias=["dcop", "lists", "dcop-implicit"]),
-        dict(n=2, enum="subsets", max_arity=2, vias=["dcop", "lists", "dcop-implicit"], var_orders="all"),
-        dict(n=3, enum="subsets", max_arity=1, vias=["dcop", "lists", "dcop-implicit"], var_orders="all"),
+        dict(n=1, enum="subsets", max_arity=1, vias=["dcop", "lists", "dcop-implicit", "dcop-grown"]),
+        dict(n=2, enum="subsets", max_arity=2, vias=["dcop", "lists", "dcop-implicit", "dcop-grown"], var_orders="all"),
+        dict(n=3, enum="subsets", max_arity=1, vias=["dcop", "lists", "dcop-implicit", "dcop-grown"], var_orders="all"),
         dict(n=3, enum="subsets", edges_only=True, vias=["dcop-implicit"], var_orders="all"),
-        dict(n=4, enum="upto", k=1, max_arity=3, vias=["dcop", "lists"], var_orders="all"),
-        dict(n=5, enum="family", family="ring", vias=["dcop", "lists", "dcop-implicit"], var_orders="all"),
-        dict(n=8, enum="random", samples=20, seed=5, max_arity=4, vias=["dcop", "lists", "dcop-implicit"], var_orders="both"),
-        dict(n=30, enum="family", family="bintree", vias=["dcop", "lists"], var_orders="both"),
+        dict(n=4, enum="upto", k=1, max_arity=3, vias=["dcop", "lists", "dcop-grown"], var_orders="all"),
+        dict(n=5, enum="family", family="ring", vias=["dcop", "lists", "dcop-implicit", "dcop-grown"], var_orders="all"),
+        dict(n=8, enum="random", samples=20, seed=5, max_arity=4, vias=["dcop", "lists", "dcop-implicit", "dcop-grown"], var_orders="both"),
+        dict(n=30, enum="family", family="bintree", vias=["dcop", "lists", "dcop-grown"], var_orders="both"),
     ]
     if tier == "thorough":
         s += [
             dict(n=4, enum="subsets", max_arity=3, vias=["dcop"]),
-            dict(n=3, enum="subsets", max_arity=2, vias=["dcop", "lists", "dcop-implicit"], var_orders="all"),
-            dict(n=4, enum="upto", k=2, max_arity=3, vias=["dcop", "lists"], var_orders="all"),
-            dict(n=6, enum="family", family="star", vias=["dcop", "lists"], var_orders="all"),
-            dict(n=8, enum="random", samples=2000, seed=6, max_arity=4, vias=["dcop", "lists", "dcop-implicit"], var_orders="both"),
+            dict(n=3, enum="subsets", max_arity=2, vias=["dcop", "lists", "dcop-implicit", "dcop-grown"], var_orders="all"),
+            dict(n=4, enum="upto", k=2, max_arity=3, vias=["dcop", "lists", "dcop-grown"], var_orders="all"),
+            dict(n=6, enum="family", family="star", vias=["dcop", "lists", "dcop-grown"], var_orders="all"),
+            dict(n=8, enum="random", samples=2000, seed=6, max_arity=4, vias=["dcop", "lists", "dcop-implicit", "dcop-grown"], var_orders="both"),
         ]
     return s
 
@@ -853,23 +870,23 @@ _RL = dict(default_recursion_limit=True)
 
 
 def shapes_c17(tier):
-    s = [dict(n=n, enum="subsets", edges_only=True, vias=["dcop", "lists"], **_RL) for n in (1, 2, 3, 4)]
+    s = [dict(n=n, enum="subsets", edges_only=True, vias=["dcop", "lists", "dcop-grown"], **_RL) for n in (1, 2, 3, 4)]
     s += [
         dict(n=5, enum="subsets", edges_only=True, vias=["dcop"], **_RL),                 # all 1024 graphs on 5 nodes
         # n-ary scopes (unary, binary, ternary, 4-ary), duplicates, both creation orders
-        dict(n=3, enum="subsets", max_arity=3, vias=["dcop", "lists", "dcop-implicit"], var_orders="both", dup=True,
+        dict(n=3, enum="subsets", max_arity=3, vias=["dcop", "lists", "dcop-implicit", "dcop-grown"], var_orders="both", dup=True,
              ckinds=["matrix", "func"], **_RL),
-        dict(n=4, enum="upto", k=3, max_arity=4, vias=["dcop", "lists"], dup=True, **_RL),
+        dict(n=4, enum="upto", k=3, max_arity=4, vias=["dcop", "lists", "dcop-grown"], dup=True, **_RL),
         dict(n=5, enum="upto", k=2, max_arity=3, vias=["dcop"], var_orders="both", **_RL),
-        dict(n=9, enum="family", family="nary-overlap", vias=["dcop", "lists"], var_orders="both", **_RL),
-        dict(n=8, enum="family", family="nary-disconnected", vias=["dcop", "lists", "dcop-implicit"], var_orders="both", **_RL),
-        dict(n=12, enum="family", family="two-cliques-chain-isolated", vias=["dcop", "lists"], var_orders="both", **_RL),
-        dict(n=7, enum="family", family="clique", vias=["dcop", "lists"], **_RL),
-        dict(n=9, enum="family", family="ring", vias=["dcop", "lists"], **_RL),
-        dict(n=10, enum="family", family="star", vias=["dcop", "lists"], **_RL),
-        dict(n=15, enum="family", family="bintree", vias=["dcop", "lists"], **_RL),
-        dict(n=12, enum="family", family="grid3", vias=["dcop", "lists"], **_RL),
-        dict(n=8, enum="random", samples=300, seed=7, max_arity=4, vias=["dcop", "lists"], **_RL),
+        dict(n=9, enum="family", family="nary-overlap", vias=["dcop", "lists", "dcop-grown"], var_orders="both", **_RL),
+        dict(n=8, enum="family", family="nary-disconnected", vias=["dcop", "lists", "dcop-implicit", "dcop-grown"], var_orders="both", **_RL),
+        dict(n=12, enum="family", family="two-cliques-chain-isolated", vias=["dcop", "lists", "dcop-grown"], var_orders="both", **_RL),
+        dict(n=7, enum="family", family="clique", vias=["dcop", "lists", "dcop-grown"], **_RL),
+        dict(n=9, enum="family", family="ring", vias=["dcop", "lists", "dcop-grown"], **_RL),
+        dict(n=10, enum="family", family="star", vias=["dcop", "lists", "dcop-grown"], **_RL),
+        dict(n=15, enum="family", family="bintree", vias=["dcop", "lists", "dcop-grown"], **_RL),
+        dict(n=12, enum="family", family="grid3", vias=["dcop", "lists", "dcop-grown"], **_RL),
+        dict(n=8, enum="random", samples=300, seed=7, max_arity=4, vias=["dcop", "lists", "dcop-grown"], **_RL),
         dict(n=12, enum="random", samples=150, seed=8, max_arity=3, vias=["dcop"], **_RL),
     ]
     # the never-crashes clause on long chains (one job per length)
@@ -880,14 +897,14 @@ def shapes_c17(tier):
             dict(n=6, enum="subsets", edges_only=True, vias=["dcop"], **_RL),             # all 32768 graphs on 6 nodes
             dict(n=5, enum="subsets", edges_only=True, vias=["lists"], var_orders="both", **_RL),
             dict(n=4, enum="subsets", max_arity=3, vias=["dcop"], **_RL),                 # all 16384 hypergraphs on 4 nodes
-            dict(n=5, enum="upto", k=3, max_arity=3, vias=["dcop", "lists"], **_RL),
-            dict(n=4, enum="upto", k=3, max_arity=4, vias=["dcop", "lists"], dup=True, reverse_constraints=True, **_RL),
+            dict(n=5, enum="upto", k=3, max_arity=3, vias=["dcop", "lists", "dcop-grown"], **_RL),
+            dict(n=4, enum="upto", k=3, max_arity=4, vias=["dcop", "lists", "dcop-grown"], dup=True, reverse_constraints=True, **_RL),
             dict(n=6, enum="upto", k=2, max_arity=4, vias=["dcop"], dup=True, **_RL),
-            dict(n=7, enum="random", samples=4000, seed=9, max_arity=4, vias=["dcop", "lists"], **_RL),
-            dict(n=10, enum="random", samples=3000, seed=10, max_arity=5, vias=["dcop", "lists"], **_RL),
+            dict(n=7, enum="random", samples=4000, seed=9, max_arity=4, vias=["dcop", "lists", "dcop-grown"], **_RL),
+            dict(n=10, enum="random", samples=3000, seed=10, max_arity=5, vias=["dcop", "lists", "dcop-grown"], **_RL),
             dict(n=25, enum="random", samples=300, seed=11, max_arity=3, vias=["dcop"], **_RL),
-            dict(n=12, enum="family", family="clique", vias=["dcop", "lists"], **_RL),
-            dict(n=63, enum="family", family="bintree", vias=["dcop", "lists"], **_RL),
+            dict(n=12, enum="family", family="clique", vias=["dcop", "lists", "dcop-grown"], **_RL),
+            dict(n=63, enum="family", family="bintree", vias=["dcop", "lists", "dcop-grown"], **_RL),
             dict(n=60, enum="family", family="grid3", vias=["dcop"], **_RL),
             dict(n=200, enum="family", family="star", vias=["dcop"], **_RL),
             dict(n=300, enum="family", family="ring", vias=["lists"], **_RL),
